@@ -32,7 +32,7 @@ READY = True
 DRIVER = "dm_token"
 LEAN_MODULES = ["DaskModel.Props.C12"]
 TABLES = ["TokenDispatch"]
-CASE_TIMEOUT_S = 30
+CASE_TIMEOUT_S = 240   # the `fresh` case starts new interpreters (slow imports on a loaded machine); nothing else comes close
 LEVEL_TEXT = ("Lean proof over the modelled normaliser (ints, bools, floats, str, bytes, None, nested list/tuple/dict/"
               "set, 0-d / strided n-d numeric arrays, object arrays of str): norm is injective up to the structural "
               "equality ObsEq (norm_injective: distinct values -> distinct normal forms) and, for well-formed values, "
@@ -186,7 +186,7 @@ def case_fresh(ctx, inp):
     for seed in inp["seeds"]:
         env["PYTHONHASHSEED"] = str(seed)
         p = subprocess.run([sys.executable, "-c", _FRESH.format(repo=REPO, harness=HERE)], input=json.dumps(specs),
-                           capture_output=True, text=True, env=env, timeout=120)
+                           capture_output=True, text=True, env=env, timeout=200)
         if p.returncode != 0:
             raise RuntimeError("fresh interpreter failed: " + p.stderr[-400:])
         there = json.loads(p.stdout.strip().splitlines()[-1])
@@ -685,7 +685,7 @@ def generate(ctx):
                 yield "cat", {"a": members[i], "b": members[j]}
     for _ in range(ctx.n(60, 1500)):
         yield "cat", {"a": rng.choice(srcs), "b": rng.choice(srcs)}
-    nseeds = 2 if not ctx.thorough() else 8
+    nseeds = 1 if not ctx.thorough() else 4
     batch = [U.gen_value(rng) for _ in range(ctx.n(120, 600))] + [a for a, _, _ in EXPLICIT_PAIRS] + [b for _, b, _ in EXPLICIT_PAIRS]
     yield "fresh", {"vals": batch, "seeds": [rng.randint(1, 10 ** 6) for _ in range(nseeds)]}
 
